@@ -115,10 +115,15 @@ def spec_files(draw, tier):
         if use_const and '[' in out and draw(st.booleans()):
             # use the constant as an upper bound with an explicit unit
             i = len(out) - 1 - out[::-1].index(']')
-            out[i - 1:i] = ['kc', 's'] if draw(st.booleans()) else ['kc']
-            j = i - 3
-            if j >= 0 and out[j] not in ('[',):
-                out[j] = '0'
+            if draw(st.integers(0, 3)) == 0 and i >= 4 and out[i - 4] == '[':
+                # ... or as the lower bound (a constant may be negative, which the text cannot express)
+                out[i - 3] = 'kc'
+                out[i - 1] = '3'          # not below the declared values 2 and 2.5
+            else:
+                out[i - 1:i] = ['kc', 's'] if draw(st.booleans()) else ['kc']
+                j = i - 3
+                if j >= 0 and out[j] not in ('[',):
+                    out[j] = '0'
         name = 'phi%d' % a if a < n_assert - 1 else draw(st.sampled_from(['out', 'out', None]))
         if name is not None:
             toks += [name, '=']
